@@ -14,8 +14,10 @@ QUICK = [
  # (nd, np, ir) for raid_rec ; shapes: single data via P (rec1of1), via Q/R (rec1), 2 data via P+Q (rec2of2), via other pairs (rec2), 3 data (recX), parity only, mixed
  (1, 1, [0]), (2, 1, [1]), (2, 1, [2]),
  (3, 2, [0, 2]), (3, 2, [1, 3]), (3, 2, [0, 4]), (3, 2, [3, 4]), (3, 2, [2]),
- (3, 3, [0, 1, 2]), (6, 3, [0, 5, 8]), (6, 3, [2, 6, 7]), (6, 3, [1, 4, 6]), (6, 3, [5, 7]), (6, 3, [6, 7, 8]),
+ (6, 3, [0, 5, 8]), (6, 3, [2, 6, 7]), (6, 3, [5, 7]), (6, 3, [6, 7, 8]),
 ]
+# three lost data blocks (recX): the round-trip miter takes > 20 min per set, thorough tier only
+SLOW = [(3, 3, [0, 1, 2]), (6, 3, [1, 4, 6])]
 QUICK_DATA = [
  # (nd, np, id, ip) for raid_data: recover with a chosen parity subset, other parities must stay untouched even if garbage
  (3, 3, [1], [2]), (3, 3, [0, 2], [0, 2]), (3, 3, [0, 1], [1, 2]), (3, 2, [2], [1]), (6, 3, [0, 5], [0, 1]),
@@ -28,21 +30,25 @@ def build(tier, seed):
     if quick:
         for v in variants:
             for nd, np_, ir in QUICK:
+                if v == 'int8' and nd >= 6 and len([x for x in ir if x < nd]) >= 2:
+                    continue      # int8 + two lost data blocks at nd 6: ~10 min each, thorough only
                 J.append(rec_job('C03', nd, np_, v, ir=ir))
             for nd, np_, i_d, i_p in QUICK_DATA:
+                if v == 'int8' and nd >= 6:
+                    continue
                 J.append(rec_job('C03', nd, np_, v, idip=(i_d, i_p)))
         J.append(rec_job('C03', 3, 2, 'int8', ir=[0, 2], mode='c', kind='negctl'))
-        J.append(rec_job('C03', 3, 3, 'ssse3', ir=[0, 1, 2], kind='negctl'))
+        J.append(rec_job('C03', 3, 2, 'ssse3', ir=[0, 2], kind='negctl'))
         J.append(rec_job('C03', 3, 3, 'int8', ir=[0, 2], mode='z'))
-        J.append(rec_job('C03', 3, 3, 'ssse3', ir=[0, 1, 2], mode='z'))
+        J.append(rec_job('C03', 3, 3, 'ssse3', ir=[0, 2], mode='z'))
     else:
         rnd = random.Random(seed)
         for v in variants:
             for ir in all_sets(3, 3):
                 J.append(rec_job('C03', 3, 3, v, ir=ir, timeout=3600))
-            for nd, np_, ir in QUICK:
+            for nd, np_, ir in QUICK + SLOW:
                 if (nd, np_) != (3, 3):
-                    J.append(rec_job('C03', nd, np_, v, ir=ir, timeout=3600))
+                    J.append(rec_job('C03', nd, np_, v, ir=ir, timeout=7200))
             for nd, np_, i_d, i_p in QUICK_DATA:
                 J.append(rec_job('C03', nd, np_, v, idip=(i_d, i_p), timeout=3600))
             # larger geometries, index sets drawn deterministically from VERIF_SEED: indices >= 32, last disk, mixed data+parity, nr up to np
